@@ -267,6 +267,39 @@ fn enumerate(depth: usize, max_out: usize, mut f: impl FnMut(&[Op])) {
     rec(depth, max_out, 0, &mut live, true, &mut cur, &mut f);
 }
 
+/// Deep backlog: three outputs; the leader runs thousands of frames ahead (the backlog's allocation
+/// grows past 4096 frames), a second output catches up part-way, the leader streams on (the ring
+/// wraps physically without growing again), the third catches up part-way, then one output -
+/// usually the slowest, while another is still behind - is dropped and everybody pulls on.
+fn deep_seq(rng: &mut Rng) -> Vec<Op> {
+    let mut ops = vec![Op::Send, Op::Send, Op::Send];
+    let rep_n = |ops: &mut Vec<Op>, op: Op, n: usize| ops.extend(std::iter::repeat(op).take(n));
+    let lead = 2100 + rng.usize_below(4000);
+    rep_n(&mut ops, Op::Next(0), lead);
+    let c1 = rng.usize_below(lead);
+    rep_n(&mut ops, Op::Next(1), c1);
+    let more = 500 + rng.usize_below(3000);
+    rep_n(&mut ops, Op::Next(0), more);
+    let c2 = rng.usize_below(lead + more);
+    rep_n(&mut ops, Op::Next(2), c2);
+    rep_n(&mut ops, Op::Next(0), rng.usize_below(2000));
+    let slow = if c1 <= c2 { 1 } else { 2 };
+    let victim = if rng.chance(3, 4) { slow } else { rng.usize_below(3) };
+    ops.push(Op::Drop(victim));
+    let live: Vec<usize> = (0..3).filter(|i| *i != victim).collect();
+    for _ in 0..300 + rng.usize_below(600) {
+        ops.push(Op::Next(live[rng.usize_below(2)]));
+    }
+    if rng.bool() {
+        ops.push(Op::Send);
+        for _ in 0..200 {
+            ops.push(Op::Next(3));
+            ops.push(Op::Next(live[0]));
+        }
+    }
+    ops
+}
+
 fn random_seq(rng: &mut Rng, len: usize, max_live: usize) -> Vec<Op> {
     let mut ops = Vec::with_capacity(len);
     let mut live: Vec<bool> = Vec::new();
@@ -406,6 +439,24 @@ fn main() {
     }
     rep.exhaustive(format!("every legal sequence of send / next(i) / drop(i) / drop-bus-handle operations of length {} over at most 3 outputs, and of length {}-2 over at most 4 outputs ({} maximal sequences), on an infinite source and on sources of length 0, 1, 2", depth, depth, n_seqs));
     // random long sequences
+    // deep backlogs (thousands of frames), see deep_seq
+    rep.oblige("deep_backlog_histories", 1);
+    let n_deep = cli.t(64u64, 6_000u64);
+    let reps = vmon::par_for(cli.threads, n_deep, 1, |_| Report::new("C13", "w"), |rep, i| {
+        let mut rng = Rng::derive(cli.seed, &[131, i]);
+        let s = deep_seq(&mut rng);
+        if i % 4 == 3 {
+            run_seq_unwinding(rep, &s, None);
+        } else {
+            run_seq(rep, &s, if i % 4 == 2 { Some(3000 + rng.below(4000)) } else { None });
+        }
+        rep.hit("deep_backlog_histories");
+        rep.nontrivial(vmon::hash_combine(0x64656570, vmon::hash_str(&enc(&s[s.len() - 40..]))));
+        flush(rep);
+    });
+    for r in reps {
+        rep.merge(r);
+    }
     let n_rand = cli.t(400u64, 300_000u64);
     let reps = vmon::par_for(cli.threads, n_rand, 4, |_| Report::new("C13", "w"), |rep, i| {
         let mut rng = Rng::derive(cli.seed, &[13, i]);
